@@ -113,8 +113,8 @@ theorem FlagsOK.upTo {w : World} (h : FlagsOK w) (rels : List RelID) : FlagsOKUp
 
 /-! ### the initial world -/
 
-theorem PLink.of_cinv {w : World} {fl : List Nat} (h : CInv w fl) (hs : w.pool.stale = []) : PLink w fl :=
-  ⟨h.idx, h.pool, hs, h.lenEq, h.tgtLen, h.freeUnindexed, h.reservedUnindexed,
+theorem PLink.of_cinv {w : World} {fl : List Nat} (h : CInv w fl) : PLink w fl :=
+  ⟨h.idx, h.pool, h.stale, h.lenEq, h.tgtLen, h.freeUnindexed, h.reservedUnindexed,
     h.liveIndexed, h.fewTables⟩
 
 theorem init_tables (cap rel : Nat) (maxComps : Nat) :
@@ -127,7 +127,7 @@ theorem tinv_init (cap rel : Nat) : TInv (World.init cap rel) [] := by
     rw [init_tables] at hT
     exact (getElem?_singleton_some hT).2
   refine ⟨⟨sinv_init cap rel, RInv.init cap rel 256, ⟨?_, ?_, ?_, ?_⟩⟩, ?_, ?_,
-    PLink.of_cinv (cinv_init cap rel) rfl, ⟨Nat.zero_le _, Nat.le_refl _⟩⟩
+    PLink.of_cinv (cinv_init cap rel), ⟨Nat.zero_le _, Nat.le_refl _⟩⟩
   · intro t T hT _ i hi
     rw [hget t T hT] at hi
     simp [Table.new] at hi
@@ -238,6 +238,65 @@ theorem RelInv.of_sameMeta {w w' : World} (h : RelInv w) (ha : w'.archetypes = w
   sinv := h.sinv.of_sameMeta ha hk hlen hm
   rinv := h.rinv.of_sameMeta ha hlen hm
   aux := h.aux.of_sameMeta ha hra hc hlen hm hal
+
+/-! ### steps that keep liveness only inside the pool slice (`Pool.get` overwrites the first cell
+of the memory `Reset` kept behind the slice, so a handle behind the slice may stop testing alive;
+the stored targets are not affected: a flagged ID lies inside the flag array) -/
+
+/-- the non-zero targets of the non-free tables have IDs inside the pool slice -/
+def TargetsIn (w : World) : Prop :=
+  ∀ (t : Nat) (T : Table), w.tables[t]? = some T → T.isFree = false →
+    ∀ (i : Nat), T.isRel.getD i false = true → (T.targets.getD i Ent.zero).isZero = false →
+      (T.targets.getD i Ent.zero).id < w.pool.ents.length
+
+theorem FlagsOKUpTo.targetsIn {w : World} {rels : List RelID} (h : FlagsOKUpTo w rels)
+    (hl : w.isTarget.length = w.pool.ents.length)
+    (hr : ∀ (r : RelID), r ∈ rels → r.target.id < w.pool.ents.length) : TargetsIn w := by
+  intro t T hT hf i hi hz
+  rcases h t T hT hf i hi hz with h1 | ⟨r, hr1, hr2⟩
+  · rw [← hl]
+    rcases Nat.lt_or_ge (T.targets.getD i Ent.zero).id w.isTarget.length with h2 | h2
+    · exact h2
+    · rw [List.getD_eq_getElem?_getD, List.getElem?_eq_none h2] at h1; cases h1
+  · rw [← hr2]; exact hr r hr1
+
+theorem FlagsOK.targetsIn {w : World} (h : FlagsOK w) (hl : w.isTarget.length = w.pool.ents.length) :
+    TargetsIn w :=
+  (h.upTo []).targetsIn hl (fun r hr => by cases hr)
+
+theorem TInv.targetsIn {w : World} {fl : List Nat} (h : TInv w fl) : TargetsIn w :=
+  h.flags.targetsIn (h.link.tgtLen.trans h.link.lenEq)
+
+theorem TargetsOK.of_sameMeta_in {w w' : World} (h : TargetsOK w) (hin : TargetsIn w)
+    (hlen : w'.tables.length = w.tables.length)
+    (hm : ∀ (t : Nat), t < w.tables.length → Table.SameMeta (w.tbl t) (w'.tbl t))
+    (hal : ∀ (e : Ent), e.id < w.pool.ents.length → w.alive e = true → w'.alive e = true) :
+    TargetsOK w' := by
+  intro t T hT hf i hi
+  obtain ⟨hlt, rfl, hT0⟩ := get_sameMeta hlen hT
+  have sm := hm t hlt
+  rw [sm.targets]
+  rw [sm.isFree] at hf; rw [sm.isRel] at hi
+  rcases h t _ hT0 hf i hi with h1 | h1
+  · exact Or.inl h1
+  · cases hz : ((w.tbl t).targets.getD i Ent.zero).isZero with
+    | true => exact Or.inl rfl
+    | false => exact Or.inr (hal _ (hin t _ hT0 hf i hi hz) h1)
+
+theorem RelInv.of_sameMeta_in {w w' : World} (h : RelInv w) (hin : TargetsIn w)
+    (ha : w'.archetypes = w.archetypes)
+    (hk : w'.kinds = w.kinds) (hra : w'.relationArchetypes = w.relationArchetypes)
+    (hc : w'.cache = w.cache) (hlen : w'.tables.length = w.tables.length)
+    (hm : ∀ (t : Nat), t < w.tables.length → Table.SameMeta (w.tbl t) (w'.tbl t))
+    (hal : ∀ (e : Ent), e.id < w.pool.ents.length → w.alive e = true → w'.alive e = true) :
+    RelInv w' where
+  sinv := h.sinv.of_sameMeta ha hk hlen hm
+  rinv := h.rinv.of_sameMeta ha hlen hm
+  aux :=
+    { targets := h.aux.targets.of_sameMeta_in hin hlen hm hal
+      rels := h.aux.rels.of_sameMeta hlen hm
+      relArchs := by intro a A hA hr; rw [ha] at hA; rw [hra]; exact h.aux.relArchs a A hA hr
+      cacheRels := by intro e he; rw [hc] at he; exact h.aux.cacheRels e he }
 
 /-- metadata of the tables after replacing one table by a table with the same metadata -/
 theorem sameMeta_set {w w' : World} {t : Nat} {T' : Table} (ht : w'.tables = w.tables.set t T')
